@@ -102,11 +102,14 @@ class DiscreteTimeInterpreter(TimeInterpreter):
     def update_sampling_violation_counter(self, duration):
         # time stamps are expressed in the default unit of the specification,
         # the sampling period in its own unit
+        # the period and the tolerance mean what is written (0.3 s is 300 ms): a gap on the bound of the closed band is inside
+        duration = Fraction(str(duration))
         if self.ast.unit != self.sampling_period_unit:
             duration = duration * self.U[self.ast.unit] / self.U[self.sampling_period_unit]
 
-        tolerance = self.sampling_period * self.sampling_tolerance
-        if duration < self.sampling_period - tolerance or duration > self.sampling_period + tolerance:
+        period = Fraction(str(self.sampling_period))
+        tolerance = period * Fraction(str(self.sampling_tolerance))
+        if duration < period - tolerance or duration > period + tolerance:
             self.sampling_violation_counter = self.sampling_violation_counter + 1
 
     def time_unit_transformer(self, node):
